@@ -27,7 +27,7 @@ ASSUMPTIONS = [
     "the empty text is not given as from_string input (an empty string is taken for a path)",
 ]
 
-KINDS = "DTECPBFAH"      # E = a bare "##" line (directive with empty text); P = a "#!pragma" comment
+KINDS = "DTECPBFAHG"     # E = a bare "##" line (directive with empty text); P = a "#!pragma" comment; G = a directive whose text merely begins with FASTA
 
 
 def render(seq, gtf=False):
@@ -56,6 +56,8 @@ def render(seq, gtf=False):
                 lines.append("c1\ts\tgene\t%d\t%d\t.\t+\t.\tID=f%d;Name=n%d" % (nf * 10, nf * 10 + 5, nf, nf))
         elif k == "A":
             lines.append("##FASTA")
+        elif k == "G":
+            lines.append("##FASTA-index genome.fa.fai")       # an ordinary directive: only the exact line '##FASTA' starts the sequence part
         elif k == "H":
             lines.append(">seq%d" % len(lines))
     if "A" in seq or "H" in seq:
